@@ -113,7 +113,14 @@ class Ctx:
     # -- predicates
     def holds(self, name, formula, pc=(), assume=(), replay=None, key=None):
         t0 = time.time()
-        f = formula.f if isinstance(formula, SymBool) else (TRUE if formula is True else FALSE if formula is False else formula)
+        if isinstance(formula, SymBool):
+            f = formula.f
+        elif isinstance(formula, tuple):
+            f = formula
+        else:
+            f = TRUE if bool(formula) else FALSE
+        if f == FALSE:
+            return self._finish(name, "sat", self.model_for(pc, assume) or {}, 0.0, "pred", replay, key, None, detail="predicate folded to False")
         if f == TRUE:
             return self._rec(name, "unsat", 0, "pred", how="folded", key=key)
         tr = self.engine.tr
